@@ -302,7 +302,33 @@ impl C08 {
             render: false,
             ..Default::default()
         };
-        let res = run_once(&c.u, &c.problem, &cfg);
+        let mut session = Session::new(c.u.clone(), &cfg.runtime, cfg.activity);
+        // The property does not depend on what the solver was used for before: in half of the
+        // cases a DIFFERENT problem over the same universe is solved first on the same solver.
+        let ex = &sc.extra;
+        if ex.get(1).map_or(false, |v| v & 1 == 1) && !c.u.vsets.is_empty() {
+            let k = 1 + ex.get(2).copied().unwrap_or(0) as usize % 3;
+            let warm = Problem {
+                reqs: (0..k)
+                    .map(|i| Req::Single(ex.get(3 + i).copied().unwrap_or(0) as usize * c.u.vsets.len() >> 16))
+                    .collect(),
+                constraints: vec![],
+                soft: vec![],
+            };
+            if warm.reqs != c.problem.reqs {
+                let w = session.solve(&warm, Cancel::Never, false, false);
+                rep.evaluations += 1;
+                if let Some(fl) = abnormal(&w.outcome, Cancel::Never) {
+                    rep.failure = Some(Failure {
+                        detail: format!("warm-up problem {:?} on the same solver: {}", warm.reqs, fl.detail),
+                        ..fl
+                    });
+                    return;
+                }
+                rep.labels.push("reused-solver");
+            }
+        }
+        let res = session.solve(&c.problem, cfg.cancel, cfg.labels, cfg.render);
         rep.labels.push(res.outcome.kind());
         label_search(&res.labels, &mut rep.labels);
         if let Some(fl) = abnormal(&res.outcome, Cancel::Never) {
@@ -346,7 +372,7 @@ impl C08 {
     }
 }
 
-struct_property!(C08, "C08", "tape -> conflict-heavy universe whose root requirements are all single version sets (+ hints, sync/async, 3 activity parameter pairs); F = first-ranked candidate of every root requirement; when the reference resolver finds a valid solution containing all of F (precondition, else skipped and counted) the returned solution must contain F. Non-trivial: precondition true, >=1 learnt clause and some transitive requirement not met by its first choice. Distinct = distinct hash of case.");
+struct_property!(C08, "C08", "tape -> conflict-heavy universe whose root requirements are all single version sets (+ hints, sync/async, 3 activity parameter pairs; in half of the cases the solver has first been used for a different generated problem over the same universe); F = first-ranked candidate of every root requirement; when the reference resolver finds a valid solution containing all of F (precondition, else skipped and counted) the returned solution must contain F. Non-trivial: precondition true, >=1 learnt clause and some transitive requirement not met by its first choice. Distinct = distinct hash of case.");
 
 // =============================================================================== C09
 
@@ -500,11 +526,13 @@ impl C09 {
             let p2 = gen_problem(&mut t, &mut u, &params);
             gen_ids(&mut t, &mut u, &params);
             let rt = gen_runtime(&mut t, 4);
+            // an optional first solve of the first problem that is cancelled at a generated poll
+            let k = t.next();
             StructCase {
                 u,
                 problem: p1,
                 rt,
-                extra: vec![],
+                extra: vec![k],
                 more: vec![p2],
             }
         }
@@ -531,13 +559,27 @@ impl C09 {
         } else {
             None
         };
-        for (i, p) in problems.iter().enumerate() {
-            let res = session.solve(p, Cancel::Never, false, false);
+        // a solve that the provider cancels part-way is an ordinary part of a solver's history:
+        // what was obtained before the cancellation stays obtained
+        let mut plan: Vec<(&Problem, Cancel)> = vec![];
+        if !self.conflict_free {
+            if let Some(&k) = sc.extra.first() {
+                if k % 3 != 0 {
+                    plan.push((&problems[0], Cancel::Transient((k / 3 % 48) as u64)));
+                }
+            }
+        }
+        plan.extend(problems.iter().map(|p| (p, Cancel::Never)));
+        for (i, &(p, cancel)) in plan.iter().enumerate() {
+            let res = session.solve(p, cancel, false, false);
             rep.evaluations += 1;
             if i == 0 {
                 rep.labels.push(res.outcome.kind());
             }
-            if let Some(f) = abnormal(&res.outcome, Cancel::Never) {
+            if matches!(res.outcome, Outcome::Cancelled(_)) {
+                rep.labels.push("cancelled-then-resolved");
+            }
+            if let Some(f) = abnormal(&res.outcome, cancel) {
                 rep.failure = Some(f);
                 return;
             }
@@ -602,7 +644,7 @@ impl C09 {
     }
 }
 
-struct_property!(C09, "C09", "tape -> no-hint universe; (general stage) two successive problems solved on ONE solver, sync or async; the provider call log is checked as a history: every get_dependencies(s) is for a soft requirement or a matching candidate of a requirement already obtained (root or previously returned dependencies), every get_candidates(n) is for a name those dependencies mention, and no key is requested again after it completed (across both solves); (conflict-free stage) on universes that are conflict-free by construction dependencies are requested for exactly the solution and candidates for exactly the mentioned names. Non-trivial: >=3 candidates with dependencies were never fetched, or a second solve ran on the same solver. Distinct = distinct hash of case.");
+struct_property!(C09, "C09", "tape -> no-hint universe; (general stage) two successive problems solved on ONE solver, sync or async, in two thirds of the cases preceded by a solve that the provider cancels at a generated poll; the provider call log is checked as a history: every get_dependencies(s) is for a soft requirement or a matching candidate of a requirement already obtained (root or previously returned dependencies), every get_candidates(n) is for a name those dependencies mention, and no key is requested again after it completed (across both solves); (conflict-free stage) on universes that are conflict-free by construction dependencies are requested for exactly the solution and candidates for exactly the mentioned names. Non-trivial: >=3 candidates with dependencies were never fetched, or a second solve ran on the same solver. Distinct = distinct hash of case.");
 
 // =============================================================================== C14
 
